@@ -155,7 +155,9 @@ def run(ctx, prop, relevant):
         class _Z: distinct = 0; generated = 0; coverage_zero = []
         mc = _Z()
     else:
-        mc = tlc_mc(ctx, "PodEni_mc", "PodEni_mc.cfg" if q else "PodEni_mc_thorough.cfg", timeout=1500, coverage=not q)
+        # thorough: C10 -> nesting depth 2, all allocation kinds; C11 -> stray cloud interfaces, two nodes, depth 1
+        mc = tlc_mc(ctx, "PodEni_mc", "PodEni_mc.cfg" if q else ("PodEni_mc_thorough.cfg" if prop == "C10" else "PodEni_mc_thorough2.cfg"),
+                    timeout=1500, coverage=not q)
     scen = tc.simulate(ctx, "PodEni_mc", "PodEni_gen.cfg", num=60 if q else 800, depth=300, timeout=900)
     bins = go_build_tests(ctx, [PKG])
     traces = run_harness(ctx, bins[PKG], {"VERIF_SCEN": scen, "VERIF_RANDOM": "120" if q else "2500", "VERIF_ENUM": "all"})
